@@ -21,6 +21,12 @@ type c09Params struct {
 	Seed             uint64
 	Hook             int
 	Active           bool // inbound cell on a non-passive peer (outbound FSM cycling in the background)
+	// Reuse (outbound only): the cell is exercised on the second connection of the
+	// same outbound FSM object, after a first session that ended by a TCP close
+	Reuse bool
+	// Trailer: bytes that cannot be decoded as a message follow the stimulus in
+	// the same write (only for stimuli that end the connection)
+	Trailer string // "" | type5 | badopen | shortnotif
 }
 
 func c09World(t *testing.T, p c09Params) rt.Result {
@@ -32,7 +38,47 @@ func c09World(t *testing.T, p c09Params) rt.Result {
 		if p.Dir == "in" && !p.Active {
 			ps.Passive = true
 		}
-		s := bring(w, ps, p.Dir, p.State, 90)
+		var s *sess
+		if p.Reuse && p.Dir == "out" {
+			ps.IdleHold = time.Second
+			ndial := 0
+			w.DialPolicy = func(hz.DialReq) (hz.DialAction, time.Duration) {
+				ndial++
+				if ndial <= 2 {
+					return hz.DialAccept, 0
+				}
+				return hz.DialRefuse, 0
+			}
+			mon := w.MustAddPeer(ps)
+			c1 := w.WaitOut(1, time.Minute)
+			if c1 == nil || !c1.Handshake(ps.RemoteAS, 90, remoteIDu) {
+				w.Violate("reuse setup: first outbound session failed")
+				return
+			}
+			w.Settle()
+			c1.Close() // TCP close: no damping, the same FSM object dials again
+			c2 := w.WaitOut(2, time.Minute)
+			if c2 == nil {
+				w.Violate("reuse setup: no second outbound connection")
+				return
+			}
+			w.Settle()
+			s = &sess{w: w, mon: mon, rc: c2, ps: ps, dir: "out"}
+			if p.State != stOpenSent {
+				c2.SendOpen(c2.StdOpen(ps.RemoteAS, 90, remoteIDu))
+				w.Settle()
+			}
+			if p.State == stEstablished {
+				c2.SendKeepalive()
+				w.Settle()
+				if !mon.Up() {
+					w.Violate("reuse setup: second session did not establish")
+					return
+				}
+			}
+		} else {
+			s = bring(w, ps, p.Dir, p.State, 90)
+		}
 		if s == nil {
 			return
 		}
@@ -57,6 +103,19 @@ func c09World(t *testing.T, p c09Params) rt.Result {
 				data[i] = byte(r.Uint32())
 			}
 			stim, typ = wire.Notification(p.Code, p.Sub, data), 3
+		}
+		legalStim := (p.State == stOpenSent && p.Stim == "OPEN") ||
+			(p.State == stOpenConfirm && p.Stim == "KEEPALIVE") ||
+			(p.State == stEstablished && (p.Stim == "KEEPALIVE" || p.Stim == "UPDATE"))
+		if stim != nil && !legalStim {
+			switch p.Trailer {
+			case "type5":
+				stim = append(stim, wire.Msg(5, []byte{0, 1, 0, 1})...)
+			case "badopen":
+				stim = append(stim, wire.Msg(wire.TypeOpen, []byte{4, 0, 1})...)
+			case "shortnotif":
+				stim = append(stim, wire.Msg(wire.TypeNotification, []byte{6})...)
+			}
 		}
 		writesBefore := rc.Pair.Writes(0)
 		switch p.Stim {
@@ -132,13 +191,13 @@ func c09World(t *testing.T, p c09Params) rt.Result {
 			if wasEst {
 				wantSess = 1
 			}
-			if len(ss) != sessBefore+0 && p.State != stEstablished {
+			if len(ss) != sessBefore && p.State != stEstablished {
 				w.Violate("%s OnEstablished fired although the session never reached Established", cell)
 			}
-			if wantSess == 1 && (len(ss) != 1 || ss[0].CloseExit < 0) {
+			if wantSess == 1 && (len(ss) != sessBefore || ss[len(ss)-1].CloseExit < 0) {
 				w.Violate("%s session was Established but OnClose has not fired exactly once after the connection ended (sessions=%d)", cell, len(ss))
 			}
-			if wantSess == 1 && len(ss) == 1 && ss[0].WriteInCloseDone && ss[0].WriteInCloseErr == nil {
+			if wantSess == 1 && len(ss) > 0 && ss[len(ss)-1].WriteInCloseDone && ss[len(ss)-1].WriteInCloseErr == nil {
 				w.Violate("%s WriteUpdate called from inside OnClose returned nil", cell)
 			}
 		}
@@ -168,6 +227,8 @@ func TestC09(t *testing.T) {
 					if k%5 == 4 {
 						p.Hook = hz.HookOff
 					}
+					p.Reuse = dir == "out" && k%3 == 0
+					p.Trailer = []string{"", "", "type5", "badopen", "shortnotif"}[k%5]
 					i := idx
 					runCase(t, "table", i, p, func(t *testing.T) rt.Result { return c09World(t, p) })
 					idx++
@@ -199,6 +260,8 @@ func TestC09(t *testing.T) {
 			p.DataLen = r.IntN(4076)
 		}
 		p.Active = r.IntN(2) == 0
+		p.Reuse = p.Dir == "out" && r.IntN(3) == 0
+		p.Trailer = []string{"", "", "type5", "badopen", "shortnotif"}[r.IntN(5)]
 		runCase(t, "notif", i, p, func(t *testing.T) rt.Result { return c09World(t, p) })
 	}
 }
